@@ -216,6 +216,22 @@ func enumCases(streams []*streamInfo) []ccase {
 				add(s, damage{Kind: "flip", Pos: pos, Bit: bit})
 			}
 		}
+		// every pair of bit flips inside each batch-length message (the one field
+		// that sizes an allocation before any checksum can be verified)
+		for _, b := range s.e.bounds[:len(s.e.bounds)-1] {
+			var m gobMsg
+			for _, x := range s.msgs {
+				if x.start == b {
+					m = x
+				}
+			}
+			nb := 8 * (m.end - m.start)
+			for i := 0; i < nb; i++ {
+				for j := i + 1; j < nb; j++ {
+					add(s, damage{Kind: "flip2", Pos: m.start + i/8, Bit: i % 8, Pos2: m.start + j/8, Bit2: j % 8})
+				}
+			}
+		}
 		for _, bl := range []int{2, 3} {
 			for pos := 0; pos+bl <= L; pos++ {
 				for _, fill := range []byte{0x00, 0xff} {
@@ -444,8 +460,16 @@ func (l *limitedBuf) String() string {
 // ---- verdicts -------------------------------------------------------------
 
 var reNum = regexp.MustCompile(`-?0x[0-9a-fA-F]+|-?[0-9][0-9a-fA-F]*`)
+var reSum = regexp.MustCompile(`checksum [0-9a-f]+`)
 
 func normalize(s string) string {
+	s = reSum.ReplaceAllString(s, "checksum N")
+	if i := strings.Index(s, "decoding into local type"); i >= 0 {
+		s = s[:i] + "decoding into local type T, received remote type U"
+	}
+	if i := strings.Index(s, "array or slice: length exceeds input size"); i >= 0 {
+		s = "gob: decoding T array or slice: length exceeds input size"
+	}
 	s = reNum.ReplaceAllString(s, "N")
 	s = strings.Join(strings.Fields(s), " ")
 	if len(s) > 70 {
@@ -488,7 +512,7 @@ func crashClass(msg string) string {
 func verdict(s *streamInfo, c ccase, r childResult) (sig, what, outcome string) {
 	total := len(s.e.truth)
 	d := c.Dmg
-	scen := map[string]string{"none": "undamaged", "flip": "bitflip", "burst": "burst", "cut": "truncation"}[d.Kind]
+	scen := map[string]string{"none": "undamaged", "flip": "bitflip", "flip2": "bitflip", "burst": "burst", "cut": "truncation"}[d.Kind]
 	boundary := -1
 	if d.Kind == "cut" {
 		scen = "truncation-inside-batch"
